@@ -12,6 +12,8 @@ import (
 	"fmt"
 	"path/filepath"
 
+	"github.com/q191201771/lal/pkg/base"
+
 	"github.com/q191201771/lal/pkg/mpegts"
 )
 
@@ -22,7 +24,7 @@ func (group *Group) startRecordMpegtsIfNeeded(nowUnix int64) {
 	}
 
 	// 构造文件名
-	filename := fmt.Sprintf("%s-%d.ts", group.streamName, nowUnix)
+	filename := fmt.Sprintf("%s-%d.ts", base.StreamNameAsPathElement(group.streamName), nowUnix)
 	filenameWithPath := filepath.Join(group.config.RecordConfig.MpegtsOutPath, filename)
 
 	group.recordMpegts = &mpegts.FileWriter{}
